@@ -150,8 +150,10 @@ def group_alphabet(seed: int):
         return Addr(f"group:{name}", tuple(c for m in members for c in m.cubes), name,
                     tuple(members))
 
+    ext = mk("ext24", S.ip2int("172.16.5.0"), 255)
     return [grp("G0"), grp("G1", n30), grp("G3", h1, n25, nc), grp("GH", h1, h2),
-            grp("GU", n25lo, n25)]  # GU: union of two halves = the /24, no single member is
+            grp("GU", n25lo, n25),  # GU: union of two halves = the /24, no single member is
+            grp("GE", ext)]         # GE: a network outside the window
 
 
 # ---------------------------------------------------------------------------------------- ports
@@ -204,7 +206,8 @@ def port_alphabet(seed: int, platform: str = "ios", small: bool = False):
            PortX("neq", (p,))]
     if not small:
         out += [PortX("range", (q, p)), PortX("eq", (179,)), PortX("eq", (514,)),
-                PortX("eq", (1,)), PortX("eq", (65535,)), PortX("lt", (1,)), PortX("lt", (2,)),
+                PortX("eq", (1,)), PortX("eq", (65535,)), PortX("lt", (1,)), PortX("lt", (0,)),
+                PortX("lt", (2,)),
                 PortX("gt", (65534,)), PortX("gt", (65535,)), PortX("range", (1, 65535)),
                 PortX("range", (r, r))]
     else:
